@@ -79,6 +79,32 @@ func c01Mutants(m sdk.Msg) (out []c01Mutant) {
 			c = cloneMsg(g)
 			c.BlockHash = append(c.BlockHash, append([]byte{}, c.BlockHash[n-1]...))
 			out = append(out, c01Mutant{"hashes:repeat-last", c})
+			// other lists with the very same concatenation of elements (a sign-doc that is the plain
+			// concatenation cannot tell them apart: the list's framing has to be fixed elsewhere)
+			var cat []byte
+			for _, h := range g.BlockHash {
+				cat = append(cat, h...)
+			}
+			reframe := func(name string, parts ...[]byte) {
+				c := cloneMsg(g)
+				c.BlockHash = nil
+				for _, p := range parts {
+					c.BlockHash = append(c.BlockHash, append([]byte{}, p...))
+				}
+				out = append(out, c01Mutant{"hashes:reframed:" + name, c})
+			}
+			reframe("one-element", cat)
+			reframe("first-hash-in-two-halves", append([][]byte{cat[:16], cat[16:32]}, g.BlockHash[1:]...)...)
+			reframe("empty-element-appended", append(append([][]byte{}, g.BlockHash...), []byte{})...)
+			reframe("empty-element-first", append([][]byte{{}}, g.BlockHash...)...)
+			reframe("last-byte-as-own-element", cat[:len(cat)-1], cat[len(cat)-1:])
+			if n == 1 {
+				var pieces [][]byte
+				for i := 0; i < 32; i += 2 {
+					pieces = append(pieces, cat[i:i+2])
+				}
+				reframe("sixteen-two-byte-pieces", pieces...)
+			}
 			if n > 1 {
 				c = cloneMsg(g)
 				c.BlockHash = append(c.BlockHash[1:], c.BlockHash[0])
